@@ -41,6 +41,13 @@ func registerIOIntrinsics(reg func(string, intrinsic), used func(string, intrins
 
 	// ---------------- math/rand ----------------
 	unitFloat := func(m *Machine, label string) value {
+		if m.h.Params["concreteRand"] == 1 {
+			// harness option: a fixed low-discrepancy sequence instead of
+			// symbolic deviates (used where only the schedule matters)
+			m.randCount++
+			x := float64(m.randCount) * 0.6180339887498949
+			return x - float64(int(x))
+		}
 		t := m.newInput(label, "f64", m.floatSort(64))
 		v := symFloat{t, 64}
 		m.assume(m.binop(token.GEQ, nil, v, float64(0)))
